@@ -125,7 +125,7 @@ def report(check, tier, seed, agg):
         if k is not None:
             known_hits.setdefault(k['id'], [k, 0])[1] += 1
             continue
-        ckey = (sig.get('clause'), sig.get('config_class'), sig.get('fault_kind'))
+        ckey = tuple(sig['class_key']) if sig.get('class_key') else (sig.get('clause'), sig.get('config_class'), sig.get('fault_kind'))
         new_classes[ckey] = new_classes.get(ckey, 0) + 1
         if new_classes[ckey] > 2 or len(new_violations) >= 16:
             continue
